@@ -209,6 +209,11 @@ def gen_reply(r, tok, method, profile=None):
     data = pre + head.encode("latin1") + wire_body
     if adv and r.random() < 0.2:
         data = mutate(r, data)
+    if r.random() < p.get("tail", 0.0) and then == "keep" and framing != "close":
+        # an unsolicited extra response glued behind a complete one on a keep-alive connection; its marker names a
+        # token no request carries, so a proxy that hands it to the next request is caught by the marker check
+        data += b"HTTP/1.1 200 OK\r\nX-R9%d: w9%d\r\nContent-Length: 8\r\n\r\nPOISONED" % (tok, tok)
+        kind = "adversarial"
     spec = {"data": S(data), "then": then}
     return spec, {"status": status, "body": body, "kind": kind, "framing": framing, "nobody": nobody}
 
